@@ -13,7 +13,7 @@ def finish(pid, tier, level, coverage, t0, violations, known_hits, assumptions):
     nviol = 0
     for i, v in enumerate(violations):
         sig = v.get('signature', '')
-        hit = [k for k in known.get('known', []) if k['property'] == pid and k['signature'] == sig]
+        hit = [k for k in known.get('known', []) if k['property'] in (pid, v.get('property')) and k['signature'] == sig]
         if hit:
             known_hits.append('KNOWN-FINDING: property=%s %s' % (pid, hit[0]['what']))
             continue
@@ -43,6 +43,39 @@ HAPPY_SIMS = [('np', C({1, 2, 3, 5, 6}, M(), dup=2, unk=1)),
               ('pd', C({1, 2, 3, 5, 6}, M(cp=True, sp=True, cd=True, sd=True), dup=1)),
               ('sp', C({1, 2, 3, 5, 6}, M(sp=True), dup=1)),
               ('dd', C({1, 2, 3, 5, 6}, M(cd=True, sd=True), dup=1, unk=1))]
+def st_c01(tier, sd):
+    big = tier == 'thorough'
+    n = 400 if big else 120
+    sizes = [0, 0, 1, 19, 20, 127, 128, 511, 512, 513, 5000, 65535, 65536, 65537, 70000] + ([300000] if big else [])
+    out = []
+    for net, codec, hdr in [('unix', 'pb', ''), ('frag', 'alias', ''), ('inproc', 'code', 'code'), ('tcp', 'json', 'json'),
+                            ('frag', 'pb', 'pb'), ('unix', 'alias', 'code'), ('frag', 'msgp', 'json'), ('inproc', 'pb', '')]:
+        for mode in ({}, {'srvpipe': True}, {'clidirect': True, 'srvdirect': True}, {'poll': True, 'readers': 2}):
+            if mode.get('poll') and net not in ('frag',):
+                continue
+            c = {'network': net, 'codec': codec, 'header': hdr, 'conns': 3, 'callers': 4, 'calls': n, 'sizes': sizes,
+                 'failevery': 9, 'frag': 9 if net == 'frag' else 0, 'bufsize': [0, 512, 70000][len(out) % 3], 'forms': 'call,call,go,ctx,rt'}
+            c.update(mode)
+            out.append(c)
+    return out
+
+def st_c05(tier, sd):
+    n = 1500 if tier == 'thorough' else 300
+    out = []
+    for net, codec in [('unix', 'pb'), ('frag', 'alias'), ('inproc', 'json'), ('frag', 'pb')]:
+        for mode in ({}, {'srvdirect': True}, {'clidirect': True}, {'poll': True, 'readers': 3}, {'poll': True, 'srvdirect': True, 'readers': 2}):
+            if mode.get('poll') and net != 'frag':
+                continue
+            c = {'network': net, 'codec': codec, 'conns': 3, 'callers': 1, 'calls': n, 'srvpipe': True, 'clipipe': True,
+                 'sizes': [0, 0, 20, 40, 128, 3000, 70000], 'failevery': 3, 'frag': 11 if net == 'frag' else 0, 'forms': 'go', 'delayus': 200}
+            c.update(mode)
+            out.append(c)
+    # server pipelining only (several callers): one handler at a time per connection
+    for net in ('unix', 'frag'):
+        out.append({'network': net, 'codec': 'pb', 'conns': 2, 'callers': 4, 'calls': n // 2, 'srvpipe': True, 'sizes': [0, 20, 600],
+                    'failevery': 4, 'frag': 7 if net == 'frag' else 0, 'delayus': 100, 'poll': net == 'frag', 'readers': 3})
+    return out
+
 CONN_PLANS = {
     # per property: model instances, deviations whose counterexamples become directed schedules,
     # simulation instances (the same constants drive TLC's random behaviours)
@@ -58,6 +91,7 @@ CONN_PLANS = {
                  ('seqreuseP', ['SeqReuse'], C({1, 2, 3}, M(cp=True, sp=True)))],
         'sims': HAPPY_SIMS,
         'pads': [0, 1, 24, 127, 128, 600, 70000],
+        'stress': st_c01,
     },
     'C02': {
         'own': 'C02',
@@ -114,6 +148,7 @@ CONN_PLANS = {
                  ('ps', C({1, 2, 5, 6, 9, 10}, M(cp=True, sp=True, sd=True))),
                  ('pc', C({1, 2, 5, 6, 9, 10}, M(cp=True, sp=True, cd=True))),
                  ('pp3', C({1, 2, 3, 6}, M(cp=True, sp=True), cut=1, wfail=1))],
+        'stress': st_c05,
     },
     'C06': {
         'own': 'C06',
@@ -199,11 +234,10 @@ def conn_check(pid, tier, replay_file=None):
         first = cr['panic'].splitlines()[0] if cr['panic'] else 'crash'
         summary = 'C08: the process crashed inside hslam/rpc while replaying %s (mode %s, %d/3 isolated re-runs crash): %s' % (
             cr['schedule']['name'] if cr['schedule'] else '?', cr['mode'], cr['crashes_in_3_isolated_runs'], first)
-        if plan['own'] == 'C08':
-            violations.append({'property': 'C08', 'signature': 'crash:' + first[:80], 'summary': summary,
-                               'schedule': cr['schedule'], 'finding': {'kind': 'crash', 'panic': cr['panic']}, 'trace': []})
-        else:
-            notes.append('other-property finding (reported by its own check): ' + summary)
+        # a crash of the process takes every outstanding call with it: it is held against the property
+        # whose schedules provoked it (and against C08 by C08's own check)
+        violations.append({'property': plan['own'], 'signature': 'crash:' + first[:80], 'summary': summary,
+                           'schedule': cr['schedule'], 'finding': {'kind': 'crash', 'panic': cr['panic']}, 'trace': []})
     cov['worker_crashes'] = len(crashes)
     for mk, (tracefile, results, ss) in sorted(rp.items()):
         cov['schedules_replayed'] += len(ss)
@@ -220,17 +254,43 @@ def conn_check(pid, tier, replay_file=None):
             sch = ss[f['trace']] if f['trace'] < len(ss) else None
             sig = cf.signature(f)
             summary = '%s: %s at event %s (trace %s, mode %s)' % (owner, f['what'], json.dumps({k: f['event'].get(k) for k in ('ev', 'c', 'seq', 'a', 'b', 'k', 'sent', 'calls')}), f['name'], mk)
-            if owner == plan['own']:
-                violations.append({'property': owner, 'signature': sig, 'summary': summary, 'schedule': sch,
-                                   'finding': {k: f[k] for k in ('kind', 'what', 'event', 'pos_in_trace', 'mode', 'name')},
-                                   'trace': f['trace_events']})
-            else:
-                notes.append('other-property finding (reported by its own check): ' + summary)
+            # Every conn-family check drives the same specification; a state the implementation reached that
+            # the specification forbids is reported by whichever check observed it (the summary names the
+            # property that owns the violated invariant).
+            if owner != plan['own']:
+                summary = '[invariant owned by %s] ' % owner + summary
+            violations.append({'property': owner, 'signature': sig, 'summary': summary, 'schedule': sch,
+                               'finding': {k: f[k] for k in ('kind', 'what', 'event', 'pos_in_trace', 'mode', 'name')},
+                               'trace': f['trace_events']})
         if len(cov['samples']) < 3 and ss:
             tr = cf.split_traces(tracefile)
             cov['samples'].append({'schedule': ss[0]['name'], 'steps': ss[0]['steps'][:40],
                                    'trace_excerpt': [json.loads(x) for x in tr[0][:25]] if tr else []})
     lap('validate')
+    # 6. workload engine on the real transports (API-level oracle: the expected transcript of the model)
+    if plan.get('stress') and not replay_file:
+        cfgs = []
+        for j, c in enumerate(plan['stress'](tier, sd)):
+            c = dict(c); c.setdefault('seed', sd * 100 + j); c.setdefault('name', '%s-st%d' % (pid, j))
+            cfgs.append(c)
+        results, scr = cf.run_stress(cfgs, pid)
+        cov['stress_configs'] = len(results)
+        cov['stress_calls'] = sum(r.get('calls', 0) for r in results)
+        cov['stress_skipped'] = [r['name'] + ': ' + r['skipped'] for r in results if r.get('skipped')]
+        for r in results:
+            for fl in (r.get('failures') or [])[:3]:
+                cfg = [c for c in cfgs if c['name'] == r['name']]
+                violations.append({'property': plan['own'], 'signature': 'stress:' + ' '.join(fl.split()[1:6]),
+                                   'summary': '%s: workload %s: %s' % (plan['own'], r['name'], fl), 'stress_config': cfg[0] if cfg else None,
+                                   'schedule': None, 'finding': {'kind': 'stress', 'failure': fl}, 'trace': []})
+        for cr in scr:
+            first = cr['panic'].splitlines()[0] if cr['panic'] else 'crash'
+            violations.append({'property': plan['own'], 'signature': 'crash:' + first[:80],
+                               'summary': '%s: the process crashed inside hslam/rpc under workload %s: %s' % (plan['own'], (cr['config'] or {}).get('name'), first),
+                               'stress_config': cr['config'], 'schedule': None, 'finding': {'kind': 'crash', 'panic': cr['panic']}, 'trace': []})
+        if len(cov['samples']) < 4 and cfgs:
+            cov['samples'].append({'stress_config': cfgs[0], 'result': {k: v for k, v in (results[0] if results else {}).items() if k != 'failures'}})
+        lap('stress')
     cov['phase_wall_s'] = phase
     print('phases:', phase)
     for n in notes[:20]:
